@@ -81,9 +81,12 @@ def d2_collision_check(ctx, rm: REModel):
 
 def d3_nothing_emitted(ctx, rm: REModel):
     sv = rm.b("save")
-    empty = [s for s in sv.node.body if isinstance(s, ast.If) and A.norm(s.test) == "not self._objs_read"]
-    ok = bool(empty) and isinstance(empty[0].body[-1], ast.Return) and not any(
-        A.find_calls(x, "emit") or A.find_calls(x, "compose_event") or A.find_calls(x, "_prepare_stream") for x in empty[0].body)
+    # `if not <the readings>: ...; return` with nothing composed or emitted up to that return; the readings may be tested directly or
+    # through the frozenset snapshot taken from them
+    empty = [s for s in sv.node.body if isinstance(s, ast.If) and A.norm(q.expand(sv.node, s.test)) in ("not self._objs_read", "not frozenset(self._objs_read)")]
+    acts = ("emit", "compose_event", "_prepare_stream", "_pack_external_assets")
+    ok = bool(empty) and isinstance(empty[0].body[-1], ast.Return) and not any(A.find_calls(x, a) for a in acts for x in empty[0].body) and \
+        not any(A.find_calls(x, a) for a in acts for x in sv.node.body[:sv.node.body.index(empty[0])])
     ctx.ob("C15.D3-empty-save-and-drop-emit-nothing", cname(sv, None, "a save with no readings returns before composing anything"), ok,
            "" if ok else "an empty bundle produces an event / consumes a seq_num", where=where(sv, sv.node))
     if empty:
@@ -167,7 +170,12 @@ def d5_descriptor_and_content(ctx, rm: REModel):
     seq = list(A.walk_stmts(ps.node.body))
     i_c = next((i for i, s in enumerate(seq) if isinstance(s, ast.Assign) and "self._compose_descriptor(" in A.norm(s.value)), None)
     i_e = next((i for i, s in enumerate(seq) if A.find_calls(s, "emit") and "DocumentNames.descriptor" in A.norm(s)), None)
-    ok = i_c is not None and i_e is not None and i_c < i_e and "data_keys.update(dks)" in A.norm(ps.node)
+    # every object's data keys are copied into the descriptor's data_keys (update, or an item-by-item loop), whatever the loop variable is called
+    copied = False
+    for lp_ in [s_ for s_ in seq if isinstance(s_, ast.For) and isinstance(s_.target, ast.Tuple) and len(s_.target.elts) == 2 and A.norm(s_.iter) == "objs_dks.items()"]:
+        src_ = A.norm(lp_.target.elts[1])
+        copied = copied or any(q.copies_all_items(x, src_, "data_keys", ps.node) for x in A.walk_stmts(lp_.body))
+    ok = i_c is not None and i_e is not None and i_c < i_e and copied
     ctx.ob("C15.D5-descriptor-first", cname(ps, None, "descriptor composed from the objects' data keys and emitted"), ok, "" if ok else "descriptor not emitted / data keys not from the objects", where=where(ps, ps.node))
     # RunEngine._read passes the device's reading to the bundler
     h = rm.handler("read")
